@@ -117,7 +117,7 @@ def main():
             res.append(one)
             if one["kind"] in ("timeout", "memory"):
                 dead = True         # a looping parser: do not burn the budget on the remaining inputs
-        out.append({"results": res, "keywords": list(P.KEYWORDS), "soft_keywords": list(P.SOFT_KEYWORDS)})
+        out.append({"results": res, "keywords": list(getattr(P, "KEYWORDS", ())), "soft_keywords": list(getattr(P, "SOFT_KEYWORDS", ()))})
     sys.stdout = real_stdout
     json.dump(out, sys.stdout)
 
